@@ -10,6 +10,8 @@ import (
 	"sync"
 	"time"
 
+	"google.golang.org/protobuf/types/known/timestamppb"
+	"reduction.dev/reduction-protocol/handlerpb"
 	"reduction.dev/reduction/batching"
 	"reduction.dev/reduction/partitioning"
 	"reduction.dev/reduction/connectors/embedded"
@@ -80,6 +82,59 @@ func routeOnce(kgc, n int, key []byte) string {
 	case <-time.After(5 * time.Second):
 		return "timeout"
 	}
+}
+
+// fanOp records which operator receives which key.
+type fanOp struct {
+	proto.UnimplementedOperator
+	idx int
+	got chan [2]string
+}
+
+func (o *fanOp) HandleEventBatch(ctx context.Context, batch []*workerpb.Event) error {
+	for _, ev := range batch {
+		o.got <- [2]string{string(ev.GetKeyedEvent().GetKey()), strconv.Itoa(o.idx)}
+	}
+	return nil
+}
+func (o *fanOp) ID() string { return fmt.Sprintf("op%d", o.idx) }
+
+// fanout sends ONE source record whose KeyEvent result is one keyed event per given (distinct) key through the
+// real SourceRunner.sendOperatorEvent and reports, per key in the given order, the operator that received it.
+func fanout(kgc, n int, keys [][]byte) string {
+	got := make(chan [2]string, len(keys)+1)
+	ops := make([]proto.Operator, n)
+	for i := range ops {
+		ops[i] = &fanOp{idx: i, got: got}
+	}
+	s := sourcerunner.VerifNewSender(kgc, ops)
+	defer s.Close()
+	batch := make([]*handlerpb.KeyedEvent, len(keys))
+	for i, k := range keys {
+		batch[i] = &handlerpb.KeyedEvent{Key: k, Timestamp: timestamppb.New(time.Unix(int64(i), 0))}
+	}
+	if err := s.SendKeyed(batch); err != nil {
+		return "err"
+	}
+	where := map[string][]string{}
+	for range keys {
+		select {
+		case g := <-got:
+			where[g[0]] = append(where[g[0]], g[1])
+		case <-time.After(5 * time.Second):
+			return "timeout"
+		}
+	}
+	out := make([]string, len(keys))
+	for i, k := range keys {
+		w := where[string(k)]
+		if len(w) != 1 {
+			out[i] = fmt.Sprintf("x%d", len(w))
+		} else {
+			out[i] = w[0]
+		}
+	}
+	return strings.Join(out, ",")
 }
 
 func c05Key(r *lib.Rng) []byte {
@@ -174,6 +229,19 @@ func propC05() *lib.Prop {
 				case 3:
 					if n <= 64 {
 						c.Ops = append(c.Ops, fmt.Sprintf("route %d %d %s", kgc, n, hk))
+						if r.Chance(1, 2) {
+							// one source record fanned out to several keys by the handler's KeyEvent
+							seen := map[string]bool{hk: true}
+							ks := []string{hk}
+							for m := r.Range(1, 5); m > 0; m-- {
+								h2 := lib.Hex(c05Key(r))
+								if !seen[h2] {
+									seen[h2] = true
+									ks = append(ks, h2)
+								}
+							}
+							c.Ops = append(c.Ops, fmt.Sprintf("fanout %d %d %s", kgc, n, strings.Join(ks, ",")))
+						}
 					}
 				case 4:
 					c.Ops = append(c.Ops, fmt.Sprintf("dbkey %d %s %s %s", kgc, hk, lib.Hex([]byte(lib.Pick(r, []string{"", "a", "ab", "ns"}))), lib.Hex(r.Bytes(r.Intn(5)))))
@@ -251,6 +319,12 @@ func propC05() *lib.Prop {
 					out = append(out, strconv.FormatUint(uint64(murmur.Hash(lib.UnHex(f[1]), at(2))), 10))
 				case "partition":
 					out = append(out, checkPartition(at(1), at(2)))
+				case "fanout":
+					var keys [][]byte
+					for _, h := range strings.Split(f[3], ",") {
+						keys = append(keys, lib.UnHex(h))
+					}
+					out = append(out, fanout(at(1), at(2), keys))
 				case "ownsroute":
 					out = append(out, checkOwnsRoute(at(1), at(2), lib.UnHex(f[3])))
 				case "owns":
